@@ -245,6 +245,7 @@ def one_run(ctx, P, src, names, ast_names, budget):
     ctx.rec[0] = rec
     names.rec = ctx.rec
     ctx.cur_parser = P
+    random.seed(13)                 # a generated program may call rand / shuffle: the bounded runs draw the same numbers as the unbounded one
     try:
         v = P.eval(src, names, ast_names, budget) if budget is not None else P.eval(src, names, ast_names)
         out = ('value', brief(v))
@@ -356,6 +357,7 @@ def run_cgf(case, ctx):
              'index_of(objs(v => emit(v), 3), 9)', 'emit(reenter(0))']
     for _ in range(6):
         seeds.append(gen_case_program(r))
+    seeds += ['emit(rand(1, 5))', 'map(shuffle([1, 2, 3]), v => emit(v))', 'emit(1) if rand() < 0.5 else emit(2)']
     out = cgdriver.run(ctx, 'check:C01:prog', seed, seconds, seeds)
     if out is None:
         return
